@@ -8,6 +8,7 @@ package c01
 import (
 	"encoding/json"
 	"fmt"
+	"os"
 	"strings"
 	"testing"
 
@@ -61,6 +62,12 @@ func check(c *Case) *ev.Failure {
 	}
 	if v.Skip != "" {
 		r.Class("skipped:" + v.Skip)
+		if v.Skip == "go_crashed" {
+			// a generated program that does not terminate (or kills the process) under Go is a generator defect: keep it for inspection
+			os.MkdirAll(ev.Root+"/out/C01", 0o755)
+			os.WriteFile(ev.Root+"/out/C01/go-crashed-"+p.Key()+".go", []byte(c.Files["prog.go"]), 0o644)
+			r.Note("a generated program crashed or timed out under Go (generator defect, skipped): out/C01/go-crashed-%s.go", p.Key())
+		}
 		if v.Skip == "go_rejected" {
 			r.Note("Go rejected a generated program: %s", firstLines(v.Msg, 2))
 		}
